@@ -1,6 +1,7 @@
 from dataclasses import Field
 from dataclasses import fields
 from typing import IO
+from typing import Final
 from typing import Literal
 from typing import TypeVar
 from typing import assert_never
@@ -84,6 +85,7 @@ def get_reader(
 
 
 T = TypeVar("T")
+_nullable_kafka_types: Final = frozenset({"string", "bytes", "records", "datetime_i64"})
 
 
 def get_field_reader(
@@ -103,10 +105,15 @@ def get_field_reader(
 
     match field_class:
         case PrimitiveField():
+            kafka_type = get_schema_field_type(field)
             inner_type_reader = get_reader(
-                kafka_type=get_schema_field_type(field),
+                kafka_type=kafka_type,
                 flexible=flexible,
-                optional=is_optional(field) and not is_tagged_field,
+                # Tagged fields can be annotated as optional without their type having a
+                # null representation on the wire. For types that do have one, a peer is
+                # free to explicitly send null.
+                optional=is_optional(field)
+                and (not is_tagged_field or kafka_type in _nullable_kafka_types),
             )
         case PrimitiveTupleField():
             inner_type_reader = get_reader(
